@@ -363,7 +363,67 @@ def _real_crash(V, kind, mode="w", append_handle=False, state="steady"):
             V.prove(full, "every-call-ends-flushed", info=kind)
 
 
-SCENARIOS = {"observer": sc_observer}
+def sc_driver_files(V):
+    """The observers a driver builds itself from paths (logfile=, trajectory=, restart_file=) must be opened in
+    the driver's logging_mode: 'w' starts from an empty file also when the path holds the remains of an earlier
+    (possibly crashed) run, 'a' keeps every earlier byte.  Finite domain (driver x mode), real files."""
+    from ase import Atoms
+
+    from quansino.mc.canonical import Canonical
+    from quansino.mc.fbmc import ForceBias
+    from quansino.mc.gcmc import GrandCanonical
+
+    which = ("Canonical", "GrandCanonical", "ForceBias")[V.choice("driver", 3)]
+    mode = ("w", "a")[V.choice("mode", 2)]
+    info = f"driver-files:{which}:logging_mode={mode}"
+    old = "REMAINS OF AN EARLIER RUN, torn in the middle of a li"
+    import warnings
+
+    with tempfile.TemporaryDirectory() as td, warnings.catch_warnings():
+        warnings.simplefilter("ignore")
+        paths = {k: os.path.join(td, k + ".out") for k in ("log", "traj", "restart")}
+        for p_ in paths.values():
+            with open(p_, "w") as fh:
+                fh.write(old)
+        atoms = Atoms("Cu2", positions=[[0.9, 1.1, 1.3], [2.3, 1.5, 1.6]], cell=[6.0, 6.0, 6.0], pbc=True)
+
+        class _Flat:  # a calculator is only needed because the log line reports the energy
+            results = {"energy": 0.0}
+            atoms = None
+
+            def get_potential_energy(self, atoms=None, force_consistent=False):
+                return 0.0
+
+            def get_forces(self, atoms=None):
+                return np.zeros((len(atoms), 3))
+
+        atoms.calc = _Flat()
+        kw = dict(logfile=paths["log"], trajectory=paths["traj"], restart_file=paths["restart"], logging_mode=mode, logging_interval=1, seed=3)
+        try:
+            if which == "Canonical":
+                sim = Canonical(atoms, temperature=300.0, max_cycles=1, **kw)
+            elif which == "GrandCanonical":
+                sim = GrandCanonical(atoms, exchange_atoms=Atoms("Cu"), temperature=300.0, chemical_potential=0.1, number_of_exchange_particles=2, max_cycles=1, **kw)
+            else:
+                sim = ForceBias(atoms, delta=0.05, temperature=300.0, **kw)
+            obs = {"log": sim.default_logger, "traj": sim.default_trajectory, "restart": sim.default_restart}
+            sim.default_logger.write_header()
+            for o in obs.values():
+                o()
+            sim.close()
+        except Exception as ex:  # noqa: BLE001
+            V.fail("default-observers-honour-the-logging-mode", info=info + ":" + type(ex).__name__ + ":" + str(ex)[:80])
+            return
+        V.reach("written")
+        for k, p_ in paths.items():
+            with open(p_) as fh:
+                text = fh.read()
+            kept = text.startswith(old)
+            ok = (obs[k].mode == mode) and (kept if (mode == "a" and k != "restart") else not kept) and len(text) > (len(old) if kept else 0)
+            V.prove(ok, "default-observers-honour-the-logging-mode", info=info + f":{k}:observer.mode={obs[k].mode}:old-bytes-kept={kept}")
+
+
+SCENARIOS = {"observer": sc_observer, "driver_files": sc_driver_files}
 replay = generic_replay(SCENARIOS)
 
 
@@ -427,6 +487,7 @@ def run(rep: Report):
         # the system empties, refills from empty, or grows between the two calls
         for st in ("to-empty", "from-empty", "grow"):
             plan.append(("observer", dict(kind=k, mode="a", append_handle=True, state=st), ("complete",)))
+    plan.append(("driver_files", dict(), ("written",)))
     run_plan(rep, plan, SCENARIOS, opts)
     if tier == "thorough":
         validate_model(rep)
